@@ -820,30 +820,26 @@ fn spec_slot_byte(i: usize, name: &[u8; 11], attr: u8, cluster: u32, size: u32, 
 #[kani::unwind(130)]
 fn c03_new_entry_root16() {
     let mut blocks: [Block; G16A_N] = zero_blocks();
-    // slots 0..=3 and 15 fully symbolic (free, deleted or live), slots 4..=14 live
-    // with concrete names: the first free slot is one of 0,1,2,3,15 or none
+    // first byte of slots 0..=3 and 15 symbolic (free 0x00, deleted 0xE5 or live), all
+    // other bytes concrete (16 entries X0..XF): the first free slot is one of
+    // 0,1,2,3,15 or none.  What the slot is filled with is C18's (serialize layout)
+    // and is re-checked here for a concrete name with symbolic attributes.
     blocks[G16A_ROOT as usize] = full_concrete_dir_block();
     {
-        let sym: [u8; 160] = kani::any();
         let r = &mut blocks[G16A_ROOT as usize].contents;
-        let mut i = 0;
-        while i < 128 {
-            r[i] = sym[i];
-            i += 1;
-        }
-        i = 0;
-        while i < 32 {
-            r[480 + i] = sym[128 + i];
-            i += 1;
-        }
+        r[0] = kani::any();
+        r[32] = kani::any();
+        r[64] = kani::any();
+        r[96] = kani::any();
+        r[480] = kani::any();
     }
     blocks[G16A_DATA as usize] = any_block(); // first data cluster: must never be touched
     let root = blocks[G16A_ROOT as usize].clone();
     let mut vol = g16a();
     let mut cache = BlockCache::new(SymDisk::new(0, blocks));
-    let name: [u8; 11] = kani::any();
+    let name: [u8; 11] = *b"NEW     TXT";
     let attr: u8 = kani::any();
-    let now = any_timestamp();
+    let now = fixed_timestamp();
     let r = vol.write_new_directory_entry(&mut cache, &Clock(now), ClusterId::ROOT_DIR, ShortFileName { contents: name }, Attributes::create_from_fat(attr));
     // spec: first slot with first byte 0x00 or 0xE5
     let mut t = 16usize;
@@ -1516,4 +1512,262 @@ fn c09_crash_create_entry16() {
 #[kani::unwind(514)]
 fn c09_crash_delete_entry16() {
     crash_dir_entry(true);
+}
+
+// ================================ truncate over an abstract FAT (stubbed IO) ===
+// truncate_cluster_chain's logic (which entries it reads and writes, in which
+// order, and how it moves the free-space record) does not depend on how FAT
+// entries are stored.  Here `next_cluster` / `update_fat` are replaced
+// (#[kani::stub]) by accessors of a ghost FAT of 8 entries whose contract is
+// what c05_next_cluster_* and c04/c16_update_fat_* establish for the real
+// functions; every FAT update is logged so that each prefix of the update
+// sequence (= each possible power cut) can be examined.  With IO gone the
+// chain topology can be fully symbolic.
+static mut GFAT: [u32; 8] = [0; 8];
+static mut GLOG_C: [u32; 8] = [0; 8];
+static mut GLOG_V: [u32; 8] = [0; 8];
+static mut GLOG_N: usize = 0;
+const G_EOC: u32 = 0x0FFF_FFFF;
+
+fn stub_next_cluster<D>(_this: &FatVolume, _bc: &mut BlockCache<D>, cluster: ClusterId) -> Result<ClusterId, Error<D::Error>>
+where
+    D: BlockDevice,
+{
+    let c = cluster.0 as usize;
+    assert!(c < 8, "ghost FAT: next_cluster outside the modelled FAT");
+    let e = unsafe { GFAT[c] };
+    if e == 0 {
+        Err(Error::UnterminatedFatChain)
+    } else if e == 0x0FFF_FFF7 {
+        Err(Error::BadCluster)
+    } else if e >= 0x0FFF_FFF8 || e == 1 {
+        Err(Error::EndOfFile)
+    } else {
+        Ok(ClusterId(e))
+    }
+}
+fn stub_update_fat<D>(_this: &mut FatVolume, _bc: &mut BlockCache<D>, cluster: ClusterId, new_value: ClusterId) -> Result<(), Error<D::Error>>
+where
+    D: BlockDevice,
+{
+    let c = cluster.0 as usize;
+    assert!(c >= 2 && c < 8, "ghost FAT: update_fat outside the volume's entries");
+    let v = match new_value {
+        ClusterId::END_OF_FILE => G_EOC,
+        ClusterId::EMPTY => 0,
+        x => x.0 & 0x0FFF_FFFF,
+    };
+    unsafe {
+        GFAT[c] = v;
+        assert!(GLOG_N < 8, "ghost FAT: update log full");
+        GLOG_C[GLOG_N] = c as u32;
+        GLOG_V[GLOG_N] = v;
+        GLOG_N += 1;
+    }
+    Ok(())
+}
+
+/// length of the chain starting at `first` in `fat` (clusters 2..=5), 0 if malformed
+fn ghost_chain_len(fat: &[u32; 8], first: u32) -> usize {
+    let mut c = first;
+    let mut n = 0;
+    let mut ok = true;
+    let mut done = false;
+    let mut i = 0;
+    while i < 5 {
+        if !done {
+            if c < 2 || c >= 6 {
+                ok = false;
+                done = true;
+            } else {
+                n += 1;
+                let e = fat[c as usize];
+                if e >= 0x0FFF_FFF8 {
+                    done = true;
+                } else if e < 2 || e == 0x0FFF_FFF7 {
+                    ok = false;
+                    done = true;
+                } else {
+                    c = e;
+                }
+            }
+        }
+        i += 1;
+    }
+    if ok && done && n <= 4 {
+        n
+    } else {
+        0
+    }
+}
+
+#[kani::proof]
+#[kani::unwind(12)]
+#[kani::stub(crate::fat::volume::FatVolume::next_cluster, stub_next_cluster)]
+#[kani::stub(crate::fat::volume::FatVolume::update_fat, stub_update_fat)]
+fn c16_truncate_any_chain_abstract_fat() {
+    // arbitrary FAT over clusters 2..=5 (entries 6,7 = slack), arbitrary well-formed chain
+    let mut fat0 = [0u32; 8];
+    fat0[0] = 0x0FFF_FFF8;
+    fat0[1] = G_EOC;
+    let mut c = 2;
+    while c < 6 {
+        let e: u32 = kani::any();
+        kani::assume(e == 0 || e >= 0x0FFF_FFF8 && e <= G_EOC || (e >= 2 && e < 6));
+        fat0[c] = e;
+        c += 1;
+    }
+    let first: u32 = kani::any();
+    kani::assume(first >= 2 && first < 6);
+    let len = ghost_chain_len(&fat0, first);
+    kani::assume(len >= 1);
+    unsafe {
+        GFAT = fat0;
+        GLOG_N = 0;
+    }
+    let mut vol = g32a();
+    // any record value, stale and out-of-range ones included
+    let count0: Option<u32> = if kani::any() { Some(kani::any()) } else { None };
+    vol.free_clusters_count = count0;
+    let hint0: Option<u32> = if kani::any() { Some(kani::any()) } else { None };
+    vol.next_free_cluster = hint0.map(ClusterId);
+    let blocks: [Block; G32A_N] = zero_blocks();
+    let mut cache = BlockCache::new(SymDisk::new(0, blocks));
+    let r = vol.truncate_cluster_chain(&mut cache, ClusterId(first));
+    assert!(r.is_ok(), "truncate: failed on a well-formed chain");
+    let fat1 = unsafe { GFAT };
+    // result: first ends the chain, the former tail is free, everything else untouched
+    assert!(fat1[first as usize] >= 0x0FFF_FFF8, "truncate: kept cluster does not end the chain");
+    // walk the old chain
+    let mut cur = first;
+    let mut i = 0;
+    let mut member = [false; 8];
+    while i < 4 {
+        if i < len {
+            member[cur as usize] = true;
+            if i > 0 {
+                assert!(fat1[cur as usize] == 0, "truncate: a cluster of the removed tail is not free");
+            }
+            let e = fat0[cur as usize];
+            if e >= 2 && e < 6 {
+                cur = e;
+            }
+        }
+        i += 1;
+    }
+    c = 0;
+    while c < 8 {
+        if !member[c] {
+            assert!(fat1[c] == fat0[c], "fat.frame: truncate changed a FAT entry outside the chain");
+        }
+        c += 1;
+    }
+    // free-space record
+    let freed = len as u32 - 1;
+    match (count0, vol.free_clusters_count) {
+        (Some(a), Some(b)) => assert!(b == a.saturating_add(freed), "info.count: free-cluster count did not grow by the number of clusters freed"),
+        (None, None) => {}
+        _ => assert!(false, "info.count: unknown count must stay unknown"),
+    }
+    if freed > 0 {
+        if let Some(h) = vol.next_free_cluster {
+            assert!(hint0 == Some(h.0) || (h.0 >= 2 && h.0 < 6), "info.hint: next-free hint outside the volume after truncate");
+        }
+    }
+    // crash points: replay the update log prefix by prefix; after every prefix the chain
+    // from `first` must be sound (never lead to a free entry)
+    let k: usize = kani::any();
+    let nlog = unsafe { GLOG_N };
+    kani::assume(k <= nlog);
+    let mut f = fat0;
+    i = 0;
+    while i < 8 {
+        if i < k {
+            let (lc, lv) = unsafe { (GLOG_C[i], GLOG_V[i]) };
+            f[lc as usize] = lv;
+        }
+        i += 1;
+    }
+    assert!(ghost_chain_len(&f, first) >= 1, "crash.chain: after a power cut during truncation the file's chain leads to a free cluster");
+    assert!(vk_bd::dev(&cache).ncalls.get() == 0, "stubbed FAT: device touched");
+    kani::cover!(len == 4 && k == 2);
+    kani::cover!(len == 1);
+    kani::cover!(len == 3 && count0 == Some(7));
+}
+
+
+/// alloc_cluster(Some(prev)): the order of its FAT updates (logged by the stubbed
+/// update_fat; the free-cluster scan runs on the real, unchanged FAT image): the
+/// new cluster is marked end-of-chain *before* the previous tail is linked to
+/// it, so that no prefix of the update sequence leaves the chain pointing at a
+/// free cluster.
+#[kani::proof]
+#[kani::unwind(14)]
+#[kani::stub(crate::fat::volume::FatVolume::update_fat, stub_update_fat)]
+fn c10_alloc_update_order() {
+    let mut blocks: [Block; G16A_N] = zero_blocks();
+    // chain 3 -> 2 (tail 2), cluster 4 free, 5 used
+    blocks[G16A_FAT as usize] = fat16_concrete([0xFFFF, 2, 0, 0xFFFF]);
+    unsafe {
+        GFAT = [0x0FFF_FFF8, G_EOC, G_EOC, 2, 0, G_EOC, 0, 0];
+        GLOG_N = 0;
+    }
+    let fat0 = unsafe { GFAT };
+    let mut vol = g16a();
+    let mut cache = BlockCache::new(SymDisk::new(0, blocks));
+    let r = vol.alloc_cluster(&mut cache, Some(ClusterId(2)), false);
+    assert!(matches!(r, Ok(ClusterId(4))), "alloc: expected the only free cluster");
+    let nlog = unsafe { GLOG_N };
+    assert!(nlog == 2, "alloc: expected exactly two FAT updates (new cluster, previous tail)");
+    let k: usize = kani::any();
+    kani::assume(k <= nlog);
+    let mut f = fat0;
+    let mut i = 0;
+    while i < 8 {
+        if i < k {
+            let (lc, lv) = unsafe { (GLOG_C[i], GLOG_V[i]) };
+            f[lc as usize] = lv;
+        }
+        i += 1;
+    }
+    assert!(ghost_chain_len(&f, 3) >= 2, "crash.chain: after a power cut between the allocator's FAT updates the chain leads to a free cluster");
+    kani::cover!(k == 1);
+}
+
+// ------------------------------------------- abstract allocator (stub) ---
+// Used by the VolumeManager::write harnesses (vk_fsop): `alloc_cluster` is
+// replaced by a stub that hands out the clusters the harness queued (the
+// volume's free clusters) and performs the two FAT updates of the real
+// allocator.  Its contract - Ok(c): c was free, FAT[c] = end-of-chain,
+// FAT[prev] = c, nothing else changes; Err(NotEnoughSpace) iff no free cluster,
+// FAT unchanged - is what c05_find_free* / c05_alloc16_* / c10_alloc_update_order
+// establish for the real function.  The expensive free-cluster scans are thereby
+// cut out of the write harnesses.
+pub(crate) static mut GALLOC_QUEUE: [u32; 4] = [0; 4];
+pub(crate) static mut GALLOC_PREV: [u32; 4] = [0; 4];
+pub(crate) static mut GALLOC_N: usize = 0;
+
+pub(crate) fn stub_alloc_cluster<D>(this: &mut FatVolume, bc: &mut BlockCache<D>, prev: Option<ClusterId>, _zero: bool) -> Result<ClusterId, Error<D::Error>>
+where
+    D: BlockDevice,
+{
+    let (i, c) = unsafe {
+        let i = GALLOC_N;
+        assert!(i < 4, "abstract allocator: more allocations than modelled");
+        GALLOC_N += 1;
+        GALLOC_PREV[i] = match prev {
+            Some(p) => p.0,
+            None => 0,
+        };
+        (i, GALLOC_QUEUE[i])
+    };
+    let _ = i;
+    if c == 0 {
+        return Err(Error::NotEnoughSpace);
+    }
+    this.update_fat(bc, ClusterId(c), ClusterId::END_OF_FILE)?;
+    if let Some(p) = prev {
+        this.update_fat(bc, p, ClusterId(c))?;
+    }
+    Ok(ClusterId(c))
 }
